@@ -28,6 +28,7 @@ def main():
     args = sys.argv[1:]
     src, tag = args[0], args[1]
     only = args[args.index("--checks") + 1].split(",") if "--checks" in args else None
+    skip_tests = "--skip-tests" in args   # re-run after rule changes: the crates' tests were run in the first pass
     slot = os.environ.get("VSEED_SLOT", "")
     tmp = "/tmp/vbenign" + slot
     wt = os.path.join(tmp, "wt")
@@ -67,9 +68,15 @@ def main():
                     pk.append(m.group(1))
             env = dict(os.environ, CARGO_NET_OFFLINE="true", CARGO_TARGET_DIR=os.path.join(VERIF, ".cache", "benign-target" + slot))
             cmd = ["cargo", "test", "--offline", "--no-fail-fast"] + [x for p in pk for x in ("-p", p)]
-            t = sh(cmd, cwd=wt, env=env)
+            if skip_tests:
+                class _T:
+                    returncode = (results.get(fn) or {}).get("tests_exit", 0)
+                    stdout = stderr = ""
+                t = _T()
+            else:
+                t = sh(cmd, cwd=wt, env=env)
             sh(["git", "-C", wt, "checkout", "Cargo.lock"])
-            res = {"status": "ran", "crates": pk, "tests_exit": t.returncode, "fired": {}}
+            res = {"status": "ran", "crates": pk, "tests_exit": t.returncode, "fired": {}, "checks_run": todo}
             if t.returncode != 0:
                 res["status"] = "tests of the touched crates fail: not a neutral refactoring"
                 res["tests_tail"] = (t.stdout + t.stderr)[-600:]
